@@ -82,7 +82,7 @@ def correspondence(seed, tier):
 
 def oracle(seed, tier):
     viol, cases, nontriv, dist = digest(session(seed + 3, tier, "r", True), "seeded worlds with random models")
-    return {"violations": viol[:10], "summary": {"cases": cases, "violations": len(viol), "nontrivial": nontriv, "input_distribution": dist}, "samples": []}
+    return {"violations": trim_violations(viol, 10), "summary": {"cases": cases, "violations": len(viol), "nontrivial": nontriv, "input_distribution": dist}, "samples": []}
 
 
 def replay(rp):
